@@ -107,3 +107,69 @@ Theorem C07_sized_loads : forall (HO : hops) (size bs : N), size <= 2 ^ 63 -> bs
   (exists x, load_sync HO ob nd = Ok x) /\ load_fsm HO ob nd = load_sync HO ob nd.
 Proof. exact sized_loads. Qed.
 Print Assumptions C07_sized_loads.
+
+(* ======== Final composition (proofs in Proofs/FinalConv.v): convergence ========
+   created_store HO data bs ob (Props/C03.v, C03_created_store_def): ob has one of the four kinds, the blob's
+   tree and root hash, and its bytes are the specified outboard - i.e. ob is exactly the store the crate
+   creates for the blob (C03_created_entry_points), so C02_roundtrip_full_*, C05_created_store_ok and
+   C06_created_store_complete apply to it. *)
+From BaoV Require Import Model.Sync Spec.NodeSpec Proofs.FinalStore Proofs.FinalConv.
+
+(* every persisted node of the Shape lies on the path of some chunk group (the converse of the fact that the
+   nodes of a path are persisted nodes), so C07_converges_pairs_partial covers every stored pair *)
+Theorem C07_pnode_on_path : forall (size bs : N), size <= 2 ^ 63 -> bs <= 10 ->
+  forall nd, In nd (sp_pre_nodes size bs) -> sp_persisted size bs nd = true ->
+  exists ga rt, ga < sp_blocks size bs /\ In (nd, rt) (top_path size bs ga).
+Proof. exact c07_pnode_on_path. Qed.
+Print Assumptions C07_pnode_on_path.
+
+(* 6, complete: once every chunk is delivered the target is the blob and the outboard is the blob's *)
+Theorem C07_converges : forall (HO : hops), hash_ok HO ->
+  forall (data : bytes HO) (bs : N), blen HO data <= 2 ^ 63 -> bs <= 10 ->
+  forall D (st : bytes HO * outboard HO),
+  Inv HO data bs D st -> (forall c, c < nchunks (blen HO data) -> D c = true) ->
+  fst st = data /\
+  ob_data (snd st) = spec_outboard HO (match ob_k (snd st) with PostIO | PostMem => true | _ => false end) data bs /\
+  created_store HO data bs (snd st).
+Proof. exact c07_converges. Qed.
+Print Assumptions C07_converges.
+
+(* any history from any state of the invariant: if the delivered set of the final state covers all chunks, the
+   final state is (the blob, the blob's store) *)
+Theorem C07_history_converges : forall (HO : hops), hash_ok HO ->
+  forall (data : bytes HO) (bs : N), blen HO data <= 2 ^ 63 -> bs <= 10 ->
+  forall ops : list (op HO), Forall (fun o => wf_ranges (op_q HO o) = true) ops ->
+  forall D st, Inv HO data bs D st ->
+  exists D', Inv HO data bs D' (fold_left (hist_step HO) ops st) /\ (forall c, D c = true -> D' c = true) /\
+    ((forall c, c < nchunks (blen HO data) -> D' c = true) ->
+     fst (fold_left (hist_step HO) ops st) = data /\
+     created_store HO data bs (snd (fold_left (hist_step HO) ops st))).
+Proof. exact c07_history_converges. Qed.
+Print Assumptions C07_history_converges.
+
+Theorem C07_history_converges_init : forall (HO : hops), hash_ok HO ->
+  forall (data : bytes HO) (bs : N), blen HO data <= 2 ^ 63 -> bs <= 10 ->
+  forall k, hist_kind k ->
+  forall ops : list (op HO), Forall (fun o => wf_ranges (op_q HO o) = true) ops ->
+  exists D', Inv HO data bs D' (fold_left (hist_step HO) ops (init_target HO data, init_ob HO data bs k)) /\
+    ((forall c, c < nchunks (blen HO data) -> D' c = true) ->
+     fst (fold_left (hist_step HO) ops (init_target HO data, init_ob HO data bs k)) = data /\
+     created_store HO data bs (snd (fold_left (hist_step HO) ops (init_target HO data, init_ob HO data bs k)))).
+Proof. exact c07_history_converges_init. Qed.
+Print Assumptions C07_history_converges_init.
+
+(* the fsm validators in a state of the invariant return what the sync ones return (the loaders agree on the
+   nodes of the tree: C07_sized_loads, C06_sync_eq_fsm_tree); hence C07_validator_exact for valid_ranges_fsm *)
+Theorem C07_validator_exact_fsm : forall (HO : hops), hash_ok HO ->
+  forall (data : bytes HO) (bs : N), blen HO data <= 2 ^ 63 -> bs <= 10 ->
+  forall D (t : bytes HO) (ob : outboard HO) q,
+  Inv HO data bs D (t, ob) ->
+  (valid_ranges_fsm HO ob t q = valid_ranges HO ob t q /\
+   valid_outboard_ranges_fsm HO ob q = valid_outboard_ranges HO ob q) /\
+  (nondegenerate HO data -> 2 <= sp_blocks (blen HO data) bs -> wf_ranges q = true ->
+   valid_ranges_fsm HO ob t q =
+   (flat_map (fun ga => if touchedb q (blen HO data) bs ga && grp_full HO data bs D ga
+                        then [(grp_start bs ga, grp_end (blen HO data) bs ga)] else [])
+             (chunk_range_list 0 (sp_blocks (blen HO data) bs)), Ok tt)).
+Proof. exact c07_validator_exact_fsm. Qed.
+Print Assumptions C07_validator_exact_fsm.
